@@ -34,7 +34,7 @@ WEIGHTS = {"paint": 9, "update_attrs": 0.2, "swap": 0.7}
 
 
 def plan(tier, seed):
-    return common.session_plan(PROP, tier, seed, quick=1600, thorough=25000)
+    return common.session_plan(PROP, tier, seed, quick=4800, thorough=50000)
 
 
 def run_shard(spec):
